@@ -254,6 +254,9 @@ class Rig:
         self._templates = {}
         self._register_harness_ops(harness_kinds or list(OP_CLASSES))
         self._collect_tutorial_ops()
+        # the harness' own record of what is registered (the oracle for "unknown operation" must not ask the library)
+        self.known_handles = {h for reg in self.prov._sco_operations_registries.values() for h in reg._registered_operations}  # noqa: SLF001
+        self.withdrawn = set()
         for reg in self.prov._sco_operations_registries.values():
             for op in reg._registered_operations.values():
                 self._wrap_handler(op)
@@ -550,7 +553,7 @@ class Rig:
             if txid is None:
                 continue
             hl = self.handler_log.get(r['req']['message_id'])
-            known = self.prov.get_operation_by_handle(r['req']['op_handle']) is not None
+            known = r['req']['op_handle'] in self.known_handles and r['req']['op_handle'] not in self.withdrawn
             mode = hl[2] if hl else ('unknown_op' if not known else 'nohandler')
             views = by_tx.get(txid, {})
             all_msgs = [r['resp']] + [p for v in views.values() for p in v]
@@ -726,6 +729,33 @@ def w_live_sequential(ctx: core.Ctx, arg):
                 rig.flush_poison()
             if rig.poisoned:
                 break
+        # operations withdrawn at run time (ScoOperationsRegistry.unregister_operation_by_handle) after they were used: from then on they are
+        # unknown operations - the request must fail and leave the MDIB alone
+        if not rig.poisoned:
+            rig.quiesce()
+            withdrawn_specs = [rig.harness_ops[k] for k in (('SetString', 'ok', 'queued'), ('Activate', 'ok', 'direct'), ('SetValue', 'ok', 'queued'))
+                               if k in rig.harness_ops]
+            for spec in withdrawn_specs:
+                rig.issue(0, spec, next(n))      # used once more right before it is withdrawn
+            rig.quiesce()
+            rig.evaluate_futures(*rig.evaluate_wire(where='live.seq')[:2], where='live')
+            for spec in withdrawn_specs:
+                for reg in rig.prov._sco_operations_registries.values():  # noqa: SLF001
+                    if spec['op'] in reg._registered_operations:  # noqa: SLF001
+                        reg.unregister_operation_by_handle(spec['op'])
+                        rig.withdrawn.add(spec['op'])
+                        ctx.count('unknown_op.withdrawn_operations')
+            before = snap(rig.mdib)
+            for spec in withdrawn_specs:
+                rig.issue(1 % len(rig.consumers), dict(spec, outcome='unknown', origin='unknown'), next(n))
+                ctx.case(('live.withdrawn_op', arg['mdib_file'], spec['kind'], spec['mode']))
+            rig.quiesce()
+            diff = snap_equal(before, snap(rig.mdib))
+            ctx.count('unknown_op.snapshots_compared')
+            if diff:
+                ctx.witness('unknown_op.mdib_changed.withdrawn', 'a request for an operation that was unregistered before changed the MDIB', {'diff': diff[:5]})
+            result, reports, _ = rig.evaluate_wire(where='live.withdrawn')
+            rig.evaluate_futures(result, reports, where='live')
         if arg.get('sample'):
             ctx.sample({'kind': 'live sequential', 'mdib_file': arg['mdib_file'],
                         'operations': [s['op'] for s in rig.tutorial_ops] + [f'{len(rig.harness_ops)} harness operations'],
@@ -905,10 +935,16 @@ class PermDriver:
             self.rig.calls.clear()  # foreign calls are judged by the live part, not here
 
     # -- delivery -------------------------------------------------------------------------------------------------
+    delivering = 0
+
     def deliver(self, msg):
         for p in msg['parts']:
             self.events.append(('P', p['txid'], p['state'], next(self.uid)))
-        entry = self.tap.inject(self.netloc, msg)
+        self.delivering += 1
+        try:
+            entry = self.tap.inject(self.netloc, msg)
+        finally:
+            self.delivering -= 1
         self.ctx.count('perm.messages_delivered')
         if entry.status not in (200, 202):
             self.ctx.witness('consumer.report_rejected', f'the consumer answered HTTP {entry.status} to an OperationInvokedReport',
@@ -1068,10 +1104,14 @@ def _interleave(msgs, slots, f_iter):
 
 # -- lock-granularity explorer on the consumer manager ---------------------------------------------------------------
 class _OwnedLock:
+    vf_hook = None
+
     def __init__(self, real):
         self.real, self.owner = real, None
 
     def acquire(self, *a, **kw):
+        if self.vf_hook is not None and self.owner != threading.get_ident():
+            self.vf_hook('lock.acquire')   # the moment before the critical section is entered is a scheduling point too
         ok = self.real.acquire(*a, **kw)
         if ok:
             self.owner = threading.get_ident()
@@ -1146,7 +1186,7 @@ class Explorer:
         self.lock = _OwnedLock(mgr._transactions_lock)
         gd = _GuardDict(mgr._transactions)
         gq = _GuardDeque(mgr._last_operation_invoked_reports, mgr._last_operation_invoked_reports.maxlen)
-        gd.vf_hook = gq.vf_hook = self.point
+        gd.vf_hook = gq.vf_hook = self.lock.vf_hook = self.point
         mgr._transactions_lock, mgr._transactions, mgr._last_operation_invoked_reports = self.lock, gd, gq
 
     def point(self, name):
@@ -1155,6 +1195,8 @@ class Explorer:
         if self.lock.owner == self.thread:
             self.protected += 1
             return
+        if self.side == 'caller' and self.driver.delivering:
+            return   # the harness itself is delivering a report in this thread: not a point of the caller's call_operation
         self.unprotected.append(name)
         if len(self.unprotected) - 1 != self.target:
             return
@@ -1266,6 +1308,147 @@ def w_perm(ctx: core.Ctx, arg):
 
 
 # ---------------------------------------------------------------------------------------------------------------------
+# =====================================================================================================================
+# (inflight) consumer side: SEVERAL transactions of one consumer in flight, reports of all of them and the responses in every order
+# =====================================================================================================================
+def w_inflight(ctx: core.Ctx, job):
+    """The real OperationsManager (constructed as SdcConsumer does) gets real messages (built with the library's factory, read with its
+    reader): OperationInvokedReports through on_operation_invoked_report, Set responses through call_operation (the hosted-service client
+    is a stub whose post_message returns the prepared response: for the manager a request is answered when its response is processed).
+    One case = one total order of {parts of T1 .. Tk (per transaction in emission order), R1 .. Rk}."""
+    import itertools
+    import logging
+    from sdc11073.consumer.operations import OperationsManager
+    from sdc11073.definitions_sdc import SdcV1Definitions
+    from sdc11073.pysoap.msgfactory import MessageFactory
+    from sdc11073.pysoap.msgreader import MessageReader
+    from sdc11073.xml_types import msg_types
+    from sdc11073.xml_types.addressing_types import HeaderInformationBlock
+    logger = logging.getLogger('vf.c09.inflight')
+    reader = MessageReader(SdcV1Definitions, None, logger, validate=True)
+    factory = MessageFactory(SdcV1Definitions, None, logger, validate=True)
+    IS = msg_types.InvocationState
+    rng = ctx.rng('inflight', job['i'])
+    SEQ = {'WSF': [IS.WAIT, IS.START, IS.FINISHED], 'SF': [IS.START, IS.FINISHED], 'F': [IS.FINISHED], 'WSX': [IS.WAIT, IS.START, IS.FAILED],
+           'WSM': [IS.WAIT, IS.START, IS.FINISHED_MOD], 'WC': [IS.WAIT, IS.CANCELLED]}
+
+    def received(payload):
+        inf = HeaderInformationBlock(action=payload.action, addr_to='urn:uuid:0e7f4b1e-5a3c-4d53-8f0e-000000000001')
+        return reader.read_received_message(factory.mk_soap_message(inf, payload=payload).serialize())
+
+    def mk_report(parts):
+        report = msg_types.OperationInvokedReport()
+        report.MdibVersion, report.SequenceId = 1, 'urn:uuid:0e7f4b1e-5a3c-4d53-8f0e-0000000000aa'
+        for txid, state in parts:
+            part = report.add_report_part()
+            part.InvocationInfo.TransactionId, part.InvocationInfo.InvocationState = txid, state
+            part.InvocationSource = reader.pm_types.InstanceIdentifier('urn:vf', extension_string='x')
+            part.OperationHandleRef, part.OperationTarget = f'op{txid}', f'target{txid}'
+        return received(report)
+
+    def mk_response(txid, state):
+        response = msg_types.SetStringResponse()
+        response.MdibVersion, response.SequenceId = 1, 'urn:uuid:0e7f4b1e-5a3c-4d53-8f0e-0000000000aa'
+        response.InvocationInfo.TransactionId, response.InvocationInfo.InvocationState = txid, state
+        return received(response)
+
+    class Client:
+        next_response = None
+
+        def post_message(self, message, msg=None, request_manipulator=None):  # noqa: ARG002
+            return self.next_response
+
+    def orders(k, seqs):
+        """all total orders: tokens (t, j) = j-th part of transaction t, (t, 'R') = response of t; parts in order, R anywhere"""
+        tokens = []
+        for t in range(k):
+            tokens += [t] * len(seqs[t]) + [('R', t)]
+        return tokens
+
+    n_cases = 0
+    budget = job['n']
+    txbase = 100
+    while n_cases < budget:
+        k = 2 if rng.random() < 0.8 else 3
+        names = [rng.choice(list(SEQ)) for _ in range(k)]
+        seqs = [SEQ[n] for n in names]
+        # one random total order: shuffle part tokens (per-transaction order is restored by popping in order), responses anywhere
+        tokens = orders(k, seqs)
+        rng.shuffle(tokens)
+        early_heavy = rng.random() < 0.5   # all reports before all responses: the buffer of early parts is what is exercised
+        if early_heavy:
+            tokens = [x for x in tokens if not isinstance(x, tuple)] + [x for x in tokens if isinstance(x, tuple)]
+        merge = rng.random() < 0.25        # consecutive parts travel in one multi-part report
+        txids = [txbase + i for i in range(k)]
+        if rng.random() < 0.3:
+            txids.reverse()                # ids need not come in processing order
+        txbase += k
+        mgr = OperationsManager(reader, 'vf')
+        client = Client()
+        remaining = [list(sq) for sq in seqs]
+        futures, delivered, done_at = {}, {t: [] for t in range(k)}, {}
+        events = []
+        i = 0
+        step = 0
+        while i < len(tokens):
+            tok = tokens[i]
+            if isinstance(tok, tuple):
+                t = tok[1]
+                first_state = seqs[t][0] if seqs[t][0] in (IS.WAIT, IS.START) else IS.WAIT
+                client.next_response = mk_response(txids[t], first_state)
+                futures[t] = mgr.call_operation(client, None)
+                events.append(f'R{t}')
+                i += 1
+            else:
+                group = [tok]
+                while merge and i + 1 < len(tokens) and not isinstance(tokens[i + 1], tuple) and len(group) < 3:
+                    i += 1
+                    group.append(tokens[i])
+                parts = []
+                for t in group:
+                    st = remaining[t].pop(0)
+                    parts.append((txids[t], st))
+                    delivered[t].append(st)
+                    events.append(f'{t}:{st.value}')
+                mgr.on_operation_invoked_report(mk_report(parts))
+                i += 1
+            step += 1
+            for t, fut in futures.items():
+                if fut.done() and t not in done_at:
+                    done_at[t] = (step, list(delivered[t]))
+        n_cases += 1
+        ctx.count('inflight.cases')
+        ctx.count(f'inflight.transactions_in_flight.{k}')
+        ctx.case(('inflight', k, tuple(names), tuple('R' if isinstance(x, tuple) else 'p' for x in tokens), merge), nontrivial=True)
+        detail = {'sequences': names, 'order': events, 'merged_messages': merge, 'txids': txids}
+        for t in range(k):
+            fut = futures[t]
+            final = seqs[t][-1]
+            ctx.count('inflight.futures_judged')
+            if not fut.done():
+                ctx.witness('future.not_completed.inflight', 'response and all reports of the transaction were handled, the result handle is not '
+                            'completed (other transactions of the same consumer were in flight)', {**detail, 'transaction': t})
+                continue
+            res = fut.result()
+            got_state = res.InvocationInfo.InvocationState
+            if got_state != final:
+                ctx.witness('future.wrong_final_state.inflight', f'result state {got_state.value}, the final state reported is {final.value}',
+                            {**detail, 'transaction': t})
+            got = [(p.InvocationInfo.TransactionId, p.InvocationInfo.InvocationState.value) for p in res.report_parts]
+            foreign = [g for g in got if g[0] != txids[t]]
+            if foreign:
+                ctx.witness('future.foreign_parts.inflight', 'the result carries report parts of another transaction', {**detail, 'transaction': t, 'got': got})
+            want = [s.value for s in seqs[t]]
+            mine = [g[1] for g in got if g[0] == txids[t]]
+            ctx.count('future.parts_compared')
+            if mine != want:
+                key = 'future.parts_missing.inflight' if _is_subsequence(mine, want) else 'future.parts_differ.inflight'
+                ctx.witness(key, 'the result does not carry exactly the report parts of its transaction (all were delivered before it completed)',
+                            {**detail, 'transaction': t, 'got': mine, 'want': want})
+        if n_cases == 1 and job['i'] == 0:
+            ctx.sample({'sub': 'inflight', **detail})
+
+
 def run(ctx: core.Ctx):
     ctx.rule = ('live: one case = one request (mdib file, operation kind, handler outcome ok/finmod/fail/cnclld/cnclldman/raise/'
                 'tutorial, queued/direct, origin, workload sequential/concurrent/burst), judged on the wire (ids, automaton, error '
@@ -1334,7 +1517,10 @@ def run(ctx: core.Ctx):
             jobs.append({'w': 'perm', 'i': i, 'mdib_file': f, 'kinds': [], 'outcomes': [], 'merged': True, 'tutorial': True, 'reps': 2,
                          'foreign_choices': foreign_choices})
             i += 1
+    for i in range(2 if q else 8):
+        jobs.append({'w': 'inflight', 'i': i, 'n': 400 if q else 4000})
     core.fanout(ctx, MODULE, 'dispatch', jobs, timeout=1500 if q else 3000)
+    ctx.floor('inflight.cases', 500)
     for name, minimum in (('automaton.sequences_checked', 200), ('wire.realtime_ordered_pairs', 100), ('raise.checked.queued', 5),
                           ('raise.checked.direct', 5), ('unknown_op.responses', 7), ('unknown_op.snapshots_compared', 2),
                           ('future.returned', 200), ('future.parts_compared', 200), ('perm.cases', 300),
@@ -1344,4 +1530,4 @@ def run(ctx: core.Ctx):
 
 
 def dispatch(ctx: core.Ctx, job):
-    {'seq': w_live_sequential, 'conc': w_live_concurrent, 'burst': w_live_burst, 'perm': w_perm}[job['w']](ctx, job)
+    {'seq': w_live_sequential, 'conc': w_live_concurrent, 'burst': w_live_burst, 'perm': w_perm, 'inflight': w_inflight}[job['w']](ctx, job)
